@@ -7,6 +7,7 @@ import (
 	"go/ast"
 	"go/token"
 	"go/types"
+	"hash/fnv"
 	"strings"
 
 	"golang.org/x/tools/go/ssa"
@@ -557,6 +558,8 @@ func (vc *VC) backEdge(p, hdr *ssa.BasicBlock, h *Heap, reach string) {
 		}
 		o := vc.oblige("step", fmt.Sprintf("loop%d.%s%s", n, vc.contract.clauseName(cl, i), sfx), cl.Tags, reach, s, cl.Src)
 		o.Pinned = cl.Pinned
+		regEnv := senv
+		o.EnvFn = func() *Env { e := regEnv; return &e }
 	}
 	for _, inh := range ls.Inherits {
 		vc.inheritSteps(n, inh, env, reach, sfx)
@@ -594,6 +597,13 @@ func (vc *VC) loopMods(hdr *ssa.BasicBlock) (map[string]bool, map[string]bool, b
 			}
 			for c := range ms.Fresh {
 				mods[c] = true
+			}
+			if ms.FreshAll {
+				for c := range vc.compSort {
+					if c != "$alloc" && !strings.HasPrefix(c, "Gcalls_") {
+						mods[c] = true
+					}
+				}
 			}
 			if a {
 				all = true
@@ -716,10 +726,24 @@ func (vc *VC) funcValue(f *ssa.Function) Term {
 	name := "fn_" + sanitize(f.String())
 	id, ok := vc.u.fnids[name]
 	if !ok {
-		id = len(vc.u.fnids) + 1
+		h := fnv.New32a()
+		h.Write([]byte(name))
+		id = int(h.Sum32() % 100000000)
+		for {
+			clash := false
+			for _, other := range vc.u.fnids {
+				if other == id {
+					clash = true
+				}
+			}
+			if !clash {
+				break
+			}
+			id++
+		}
 		vc.u.fnids[name] = id
 	}
-	vc.u.declare(name, fmt.Sprintf("(define-fun %s () Int %d)", name, 1000000+id))
+	vc.u.declare(name, fmt.Sprintf("(define-fun %s () Int %d)", name, 2000000000+id))
 	return mk(name, SInt).withType(f.Type())
 }
 
@@ -1206,7 +1230,10 @@ func (vc *VC) execStore(x *ssa.Store, h *Heap, reach string) {
 			}
 		}
 		if !exempt {
-			vc.storeHeap = h
+			// a slice of objects is checked as a whole only when this activation built its array
+			if _, isSl := x.Val.Type().Underlying().(*types.Slice); !isSl || freshSlice(x.Val, map[ssa.Value]bool{}) {
+				vc.storeHeap = h
+			}
 			vc.storeInv(reach, v, x.Val.Type(), "memory")
 			vc.storeHeap = nil
 		}
